@@ -92,6 +92,41 @@ func tryReplay(c *Ctx, repo, verif, prop string, o *Obl, rec map[string]interfac
 			return true
 		}
 	}
+	// 1b. scenario test of a seeded change that broke the same obligation group before: the demonstration
+	// written for that change (kept under /verif/seeded) is run against the tree under test
+	if metas, _ := filepath.Glob(filepath.Join(verif, "seeded", "*", "meta.json")); metas != nil {
+		for _, mp := range metas {
+			var meta, res map[string]interface{}
+			if readJSON(mp, &meta) != nil || meta["property"] != prop {
+				continue
+			}
+			dir := filepath.Dir(mp)
+			if readJSON(filepath.Join(dir, "result.json"), &res) != nil {
+				continue
+			}
+			hit := false
+			if cr, ok := meta["check_result"].(map[string]interface{}); ok {
+				if fo, ok := cr["failed_obligations"].([]interface{}); ok {
+					for _, f := range fo {
+						if fs, ok := f.(string); ok && groupName(fs) == base {
+							hit = true
+						}
+					}
+				}
+			}
+			rel, _ := res["demo_rel_path"].(string)
+			if !hit || rel == "" {
+				continue
+			}
+			ran, failed, out := runOverlayTest(repo, filepath.Dir(rel), []string{filepath.Join(dir, "demo_test.go")}, "TestSeed.*")
+			rec["replay"] = map[string]interface{}{"route": "scenario test of a seeded change that failed the same obligation", "seed": filepath.Base(dir),
+				"change": meta["change"], "needs": meta["needs_to_manifest"], "test": "TestSeed.* in " + filepath.Join(filepath.Base(dir), "demo_test.go"),
+				"ran": ran, "reproduced": failed, "output": truncate(tailLines(out, 30), 4000)}
+			if ran && failed {
+				return true
+			}
+		}
+	}
 	// 2. unit adapter
 	if o.Safety && o.g != nil {
 		if ok := unitReplay(c, repo, o, rec); ok {
